@@ -236,6 +236,15 @@ func main() {
 	scan := ScanRepo(ev.Repo())
 	combos := buildCombos()
 	// every request header the router-wide middlewares read must be a dimension of the product
+	// every configuration setting / environment variable the middleware wiring branches on must be a dimension of the
+	// configuration alphabet (or be known not to matter)
+	wiring := ScanWiringSettings(ev.Repo())
+	for _, w := range wiring {
+		if _, ok := VariedSettings[w.Name]; !ok {
+			ev.Fatal("%s:%d (%s) branches on setting %q while building the middleware chain; the C20 configuration alphabet does not know it: add it to VariedSettings in mc/cmd/c20/variants.go and enumerate it",
+				w.File, w.Line, w.Func, w.Name)
+		}
+	}
 	reads := ScanHeaderReads(ev.Repo())
 	for _, hr := range reads {
 		if _, ok := VariedHeaders[hr.Name]; !ok {
@@ -351,6 +360,12 @@ func main() {
 			totalReqs += int64(len(rr))
 		}
 	}
+	if len(incomplete) > 0 {
+		if r.Violations() == 0 {
+			ev.Fatal("%s", incomplete[0])
+		}
+		r.Cap(incomplete[0])
+	}
 	r.Transitions = totalReqs
 	r.TracesValidated = totalReqs
 	r.States = int64(len(walked))
@@ -405,6 +420,11 @@ func main() {
 			hr = append(hr, fmt.Sprintf("%s:%d %s (%s)", x.File, x.Line, x.Name, x.How))
 		}
 		r.Extra["request_headers_read_by_router_wide_middleware"] = hr
+		var ws []string
+		for _, w := range wiring {
+			ws = append(ws, fmt.Sprintf("%s:%d %s: %s -> %s", w.File, w.Line, w.Func, w.Name, VariedSettings[w.Name]))
+		}
+		r.Extra["settings_the_middleware_wiring_branches_on"] = ws
 		r.Extra["header_combinations"] = map[string]int{"all": len(combos.All), "with_every_authorization_value": len(combos.Base),
 			"full_product_with_class_representatives": len(combos.Full), "with_right_credentials": len(combos.Single),
 			"with_unregistered_methods": len(combos.Cors), "through_tcp_listener": len(combos.TCP)}
@@ -530,6 +550,8 @@ func isAuthBody(b string) bool {
 	return strings.HasPrefix(b, "Unauthorized") || strings.HasPrefix(b, "Invalid authorization header")
 }
 
+var incomplete []string
+
 var (
 	flagMu  sync.Mutex
 	flagged = map[string]int{} // violation class -> occurrences (only the first few of each class are written out)
@@ -560,8 +582,13 @@ func judge(r *ev.Run, pr *ProbeResult, walked, walkedTpl, abandoned map[string]b
 			continue
 		}
 		if rt.URL == "" {
-			ev.Fatal("probe %s: no concrete URL matches walked route %q (methods %v, queries %v, host %q): coverage would be incomplete",
-				cfg.Name, rt.Template, rt.Methods, rt.Queries, rt.Host)
+			// not fatal at once: requests to the other routes are judged first (a violation there is a verdict; an
+			// unexplorable route without any violation is a harness failure, exit 2)
+			flagMu.Lock()
+			incomplete = append(incomplete, fmt.Sprintf("probe %s: no concrete URL / method matches walked route %q (methods %v, queries %v, host %q): coverage would be incomplete",
+				cfg.Name, rt.Template, rt.Methods, rt.Queries, rt.Host))
+			flagMu.Unlock()
+			continue
 		}
 		walkedTpl[rt.Template] = true
 		ms := rt.Methods
